@@ -1,5 +1,6 @@
 (* How the source handles its reference chains (gen/Tables.v, regenerated on every run): every record of []string chains
-   is received by value and never has its address taken, every chain starts as a fresh array (`make`) or nil, and every later write to a chain is `x.f = append(x.f, e)`.  These
+   is received by value and never has its address taken, every chain field is given an array of its own (`make`, nil, the only slice taken of a local array), the same field of a
+   chain record with one element appended, or a copy of the same field's header -- nothing else.  These
    are the two assumptions under which SlicesSpec.v proves that the shared backing arrays implement the immutable chains
    of the model. *)
 From LDGen Require Import Tables.
@@ -7,7 +8,7 @@ From Coq Require Import String List Bool.
 Import ListNotations.
 
 Definition chain_discipline : bool :=
-  forallb (fun w => String.eqb (snd w) "append-self" || String.eqb (snd w) "fresh") chain_writes_src &&
+  forallb (fun w => String.eqb (snd w) "append-self" || String.eqb (snd w) "fresh" || String.eqb (snd w) "copy") chain_writes_src &&
   forallb (fun w => String.eqb (snd w) "value") chain_headers_src.
 
 Theorem chain_discipline_in_source : chain_discipline = true.
